@@ -433,7 +433,9 @@ pub fn prop(tier: Tier, seed: u64) -> Prop {
     // weight rounded to nearest at scale 2^p, fits its word, and p is as large as that word allows
     // (i16 for 8-bit data with p <= 21, i32 for 16-bit data with p <= 45).
     {
-        let pairs = crate::props::c10::model_pairs(tier);
+        // the same geometry family as C10's model space; thorough: sizes up to 96 (+ the large sizes against 1..16)
+        let (ms, mt): (u32, u32) = tier.pick((30, 4), (96, 16));
+        let pairs = crate::props::c10::model_pairs_st(ms, mt);
         let dimsq = vec![pairs.len() as u64, 7, 2];
         let dq = dimsq.clone();
         p.spaces.push(Space::new("model: coefficient quantisation (round-to-nearest at scale 2^p, p maximal for the coefficient word) for every geometry x filter x CROP1", product(&dimsq), move |idx, ctx| {
